@@ -4,7 +4,7 @@ driver (lean/Driver.lean)."""
 import functools
 
 import impl
-from impl import Runner, ScriptAction, ticks, TICK, CTX  # noqa: F401
+from impl import Runner, ScriptAction, ticks, TICK, CTX, Num  # noqa: F401
 
 from simprocesd.model import System, EventType  # noqa: F401
 from simprocesd.model.factory_floor import (Source, Sink, PartHandler, PartProcessor, Buffer, DecisionGate,
@@ -98,16 +98,42 @@ def _create_wo(self, target, tag=None, info=None):
 Maintainer.create_work_order = _create_wo
 
 
+class Pallet(Batch):
+    """a user subclass of Batch (the documented way to attach data to a batch): everything the library
+    does for a Batch it must do for a Pallet (isinstance, not an exact type test)"""
+
+
+class Piece(Part):
+    """a user subclass of Part, for the same reason"""
+
+
 class GenX(PartGenerator):
-    def __init__(self, prefix, value, quality, batchof):
+    def __init__(self, prefix, value, quality, batchof, phase=0):
         super().__init__(prefix, value, quality)
         self.batchof = batchof
+        self.phase = phase
 
     def generate_part_helper(self, part_name, part_counter):
+        # every other generated object is an instance of a user subclass (invisible in the observation
+        # stream: a correct library treats it like the base class)
+        sub = (part_counter + self.phase) % 2 == 1
         if self.batchof == 0:
-            return Part(part_name, self.value, self.quality)
+            return (Piece if sub else Part)(part_name, self.value, self.quality)
         n = max(self.batchof, 0)
-        return Batch(part_name, [Part(f'{part_name}_{i}', self.value, self.quality) for i in range(n)])
+        return (Pallet if sub else Batch)(
+            part_name, [(Piece if (sub + i) % 2 else Part)(f'{part_name}_{i}', self.value, self.quality) for i in range(n)])
+
+
+class Name(str):
+    """a name that knows which object of the scenario it was given to (names need not be unique: two distinct
+    devices or work-order targets may carry EQUAL names, also the empty one; the library hands the name object on
+    into its records, where the harness reads the owner back from it)"""
+
+    def __new__(cls, text, dev=None, tgt=None):
+        o = str.__new__(cls, text)
+        o._vdev = dev
+        o._vtgt = tgt
+        return o
 
 
 class TargetMixin:
@@ -148,7 +174,8 @@ class FakeTarget(TargetMixin, Maintainable):
     def __init__(self, runner, tgt, start, end):
         self._vrunner = runner
         self._vtgt = tgt
-        self.name = f'T{tgt}'
+        # distinct targets carry EQUAL names in two of three scenarios ('T' / the empty string)
+        self.name = Name([f'T{tgt}', 'T', ''][runner.scen_no % 3], tgt=tgt)
         self._start, self._end = start, end
 
     def start_work(self, tag):
@@ -206,6 +233,24 @@ class Box:
         self.v = v
 
 
+class Requester:
+    """the party that registers waiting requests for script k; its bound method is the callback"""
+
+    def __init__(self, runner, k):
+        self.runner = runner
+        self.k = k
+        self.asked = []          # the request dictionaries handed in and not yet answered
+
+    def on_resources(self, manager, request):
+        r = self.runner
+        mine = [q for q in self.asked if q == request]
+        ok = manager is r.rm and bool(mine) and all(request is not q for q in self.asked)
+        if mine:
+            self.asked.remove(mine[0])
+        r.results.append(f'cb {self.k}' + ('' if ok else ' badargs'))
+        ScriptAction(r, self.k)()
+
+
 class FalsyOverride:
     """a per-object override action that is a callable OBJECT with a false truth value (legal: the
     scheduler must test for None, not for truthiness)"""
@@ -233,13 +278,35 @@ def plist(s, sep=','):
     return [] if s in ('-', '', None) else s.split(sep)
 
 
-def preq(s):
-    return {f'r{a}': int(b) for a, b in (e.split(':') for e in plist(s, ';'))}
+def preq(s, num=int):
+    return {f'r{a}': num(b) for a, b in (e.split(':') for e in plist(s, ';'))}
+
+
+class PoolsRM(_rmmod.ResourceManager):
+    """a user subclass of the resource manager with a length (the number of declared pools): an object that is FALSY
+    while no pool has been declared, e.g. when it is handed to System(...).  A correct library tests `is None` /
+    `== None`, not truthiness."""
+
+    def __len__(self):
+        return len(getattr(self, '_resources', ()))
 
 
 class FullRunner(Runner):
     probe = False        # C03: offer every ready part to its downstreams on a deep copy at clock advances
     valcheck = False     # C16: check value bookkeeping on the live objects after every event
+
+    def make_system(self):
+        """by scenario number: the default manager, a manager of a user subclass that is falsy when the System is
+        built, an explicitly passed plain manager.  The harness keeps working with the object it passed in, as a
+        user does (`self.rm`)."""
+        k = self.scen_no % 3
+        if k == 0:
+            s = System()
+            self.rm = s.resource_manager
+        else:
+            self.rm = PoolsRM() if k == 1 else _rmmod.ResourceManager()
+            s = System(resource_manager=self.rm) if self.scen_no % 2 else System(self.rm)
+        return s
 
     def reset(self):
         super().reset()
@@ -262,6 +329,7 @@ class FullRunner(Runner):
         self.wo_seq = {}
         self.records = []
         self.all_resv = []
+        self.requesters = {}
         self.n_assets = 0
         self.names = {}
         env = self.env
@@ -340,8 +408,8 @@ class FullRunner(Runner):
         if a > 0:
             for real, idx in self.id2idx.items():
                 if idx == a:
-                    return real
-        return a
+                    return self.N(real)
+        return self.N(a)
 
     # ---- scenario lines ---------------------------------------------------------------------
     def handle_ext(self, toks):
@@ -358,7 +426,7 @@ class FullRunner(Runner):
             params = {}
             for e in plist(kv.get('params', '-')):
                 t, d, n, c = e.split(':')
-                params[int(t)] = (int(d), int(n), int(c))
+                params[int(t)] = (int(d), self.N(n), self.N(c))
             tgt = len(self.targets)
             dev = kv.get('dev', '-')
             start = None if kv.get('start', '-') == '-' else int(kv['start'])
@@ -367,6 +435,8 @@ class FullRunner(Runner):
                 obj = self.devs[int(dev)]
                 obj._vrunner = self
                 obj._vtgt = tgt
+                if isinstance(getattr(obj, 'name', None), Name):
+                    obj.name._vtgt = tgt
             else:
                 obj = FakeTarget(self, tgt, start, end)
             self.targets.append({'obj': obj, 'params': params})
@@ -422,8 +492,8 @@ class FullRunner(Runner):
             i = len(self.maints)
             args = {}
             if kv.get('cap', 'def') not in ('def',):
-                args['capacity'] = INF if kv['cap'] == 'inf' else int(kv['cap'])
-            m = Maintainer(f'M{i}', value=int(kv.get('value', '0')), **args)
+                args['capacity'] = INF if kv['cap'] == 'inf' else self.N(kv['cap'])
+            m = Maintainer(f'M{i}', value=self.N(kv.get('value', '0')), **args)
             self.maints.append(m)
         elif t == 'sched':
             kv = kvs(toks[1:])
@@ -443,7 +513,7 @@ class FullRunner(Runner):
             i = len(self.sensors)
             args = {}
             if kv.get('cap', 'def') not in ('def',):
-                args['data_capacity'] = INF if kv['cap'] == 'inf' else int(kv['cap'])
+                args['data_capacity'] = INF if kv['cap'] == 'inf' else self.N(kv['cap'])
             if kind == 'per':
                 probes = []
                 for v in plist(kv.get('vars', '-')):
@@ -454,7 +524,7 @@ class FullRunner(Runner):
                 probes = [Probe((lambda tgt: tgt.quality) if a == '0' else (lambda tgt: tgt.value), None)
                           for a in plist(kv.get('attrs', '-'))]
                 if kv.get('n', 'def') != 'def':
-                    args['sensing_interval'] = int(kv['n'])
+                    args['sensing_interval'] = self.N(kv['n'])
                 s = OutputPartSensor(self.devs[int(kv['proc'])], probes, name=f'N{i - i % 2}', **args)
             runner = self
             for c in range(int(kv.get('cbs', '0'))):
@@ -488,24 +558,37 @@ class FullRunner(Runner):
 
     def make_dev(self, kind, kv):
         i = len(self.devs)
-        name = f'D{i}'
+        # distinct devices carry EQUAL names in two of five scenarios
+        name = Name({1: 'D', 3: ''}.get(self.scen_no % 5, f'D{i}'), dev=i)
         ups = [self.devs[int(u)] for u in plist(kv.get('up', '-'))]
         cyc = int(kv.get('cyc', '0')) / self.tick
-        value = int(kv.get('value', '0'))
+        value = self.N(kv.get('value', '0'))
         if kind == 'source':
             args = {}
             if kv.get('budget', 'def') != 'def':
-                args['starting_parts'] = INF if kv['budget'] == 'inf' else int(kv['budget'])
-            gen = GenX(f'P{i}', int(kv.get('pval', '0')), int(kv.get('pqual', '1')), int(kv.get('batchof', '0')))
+                args['starting_parts'] = INF if kv['budget'] == 'inf' else self.N(kv['budget'])
+            gen = GenX(f'P{i}', self.N(kv.get('pval', '0')), self.N(kv.get('pqual', '1')), int(kv.get('batchof', '0')), phase=i)
             d = Source(name, gen, cyc, **args)
         elif kind == 'handler':
             d = PartHandler(name, ups, cyc, value)
         elif kind == 'processor':
-            res = preq(kv['res']) if 'res' in kv else None
+            res = preq(kv['res'], self.N) if 'res' in kv else None
             d = ProcX(name, ups, cyc, value, res)
             for spec in plist(kv.get('fincb', '-')):
                 d.add_finish_processing_callback(self.make_part_cb(spec))
             runner = self
+
+            def failobs(dev, is_failure, lost, i=i):
+                # what an observer sees at the moment a FAILURE is announced (first shutdown callback): the failed
+                # machine has lost its part and must already have given its resources back.  Silent when it has.
+                if not is_failure or getattr(dev, '_part', None) is not None:
+                    return
+                rr = getattr(dev, '_reserved_resources', None)
+                held = {k: v for k, v in (rr.reserved_resources.items() if rr is not None else ()) if v != 0}
+                if held:
+                    use = jn(';', (f'{runner.rid(k)}:{ival(runner.rm.get_resource_usage(k))}' for k in held))
+                    runner.results.append(f'failobs {i} holds-at-failure [{runner.req_str(held)}] usage={use}')
+            d.add_shutdown_callback(failobs)
             for c in range(int(kv.get('nshut', '0'))):
                 def shut(dev, is_failure, lost, c=c, i=i):
                     runner.results.append(f'shut {i} {c} {1 if is_failure else 0} '
@@ -530,7 +613,7 @@ class FullRunner(Runner):
         elif kind == 'buffer':
             args = {}
             if kv.get('cap', 'def') != 'def':
-                args['capacity'] = None if kv['cap'] == 'inf' else int(kv['cap'])
+                args['capacity'] = None if kv['cap'] == 'inf' else self.N(kv['cap'])
             d = Buffer(name, ups, int(kv.get('delay', '0')) / self.tick, value=value, **args)
         elif kind == 'gate':
             pred = kv.get('pred', 'always').split(':')
@@ -545,7 +628,7 @@ class FullRunner(Runner):
             d = DecisionGate(name, ups, decider)
         elif kind == 'batcher':
             bsz = kv.get('bsz', '-')
-            d = PartBatcher(name, ups, value, None if bsz in ('-', 'def', 'inf') else int(bsz))
+            d = PartBatcher(name, ups, value, None if bsz in ('-', 'def', 'inf') else self.N(bsz))
         elif kind == 'sink':
             d = Sink(name, ups, cyc, kv.get('collect', '0') == '1')
         elif kind == 'gpath':
@@ -570,10 +653,10 @@ class FullRunner(Runner):
 
     def do_op_ext(self, toks):
         op = toks[0]
-        rm = self.system.resource_manager
+        rm = self.rm
         env = self.env
         if op == 'addres':
-            rm.add_resources(f'r{toks[1]}', int(toks[2]))
+            rm.add_resources(f'r{toks[1]}', self.N(toks[2]))
             return 'ok'
         if op == 'reserve':
             # the SAME dictionary object is passed for equal requests (callers reuse their request
@@ -581,14 +664,14 @@ class FullRunner(Runner):
             cache = self.__dict__.setdefault('_req_cache', {})
             req = cache.get(toks[2])
             if req is None or req != preq(toks[2]):
-                req = cache[toks[2]] = preq(toks[2])
+                req = cache[toks[2]] = preq(toks[2], self.N)
             r = rm.reserve_resources(req)
             self.set_hvar(int(toks[1]), r)
             return 'ret none' if r is None else 'ret some'
         if op == 'release':
             v = self.get_var(int(toks[1]))
             if len(toks) > 2:
-                v.release(preq(toks[2]))
+                v.release(preq(toks[2], self.N))
             else:
                 v.release()
             return 'ok'
@@ -597,16 +680,15 @@ class FullRunner(Runner):
             a.merge(b)
             return 'ok'
         if op == 'register':
+            # the callback is a BOUND METHOD of the requester object of script k (one object per k): two
+            # registrations of one requester have equal, not identical, callbacks -- and each is an entry of its own
             k = int(toks[1])
-            req = preq(toks[2])
-            runner = self
-
-            def cb(manager, request, k=k, req=req):
-                ok = manager is rm and request == req and request is not req
-                runner.results.append(f'cb {k}' + ('' if ok else ' badargs'))
-                ScriptAction(runner, k)()
-            cb.k = k
-            rm.reserve_resources_with_callback(req, cb)
+            req = preq(toks[2], self.N)
+            who = self.requesters.get(k)
+            if who is None:
+                who = self.requesters[k] = Requester(self, k)
+            who.asked.append(req)
+            rm.reserve_resources_with_callback(req, who.on_resources)
             return 'ok'
         if op in ('schedfail', 'schedfailrel'):
             t = int(toks[2]) / self.tick
@@ -624,7 +706,7 @@ class FullRunner(Runner):
             self.devs[int(toks[1])].block_input = toks[2] == '1'
             return 'ok'
         if op == 'adjust':
-            self.devs[int(toks[1])].adjust_part_count(int(toks[2]))
+            self.devs[int(toks[1])].adjust_part_count(self.N(toks[2]))
             return 'ok'
         if op == 'setcycle':
             self.devs[int(toks[1])].cycle_time = int(toks[2]) / self.tick
@@ -643,7 +725,7 @@ class FullRunner(Runner):
             r = m.create_work_order(self.targets[int(toks[2])]['obj'], tuple([int(toks[3])]), int(toks[4]))
             return 'ret 1' if r else 'ret 0'
         if op == 'setparams':
-            self.targets[int(toks[1])]['params'][int(toks[2])] = (int(toks[3]), int(toks[4]), int(toks[5]))
+            self.targets[int(toks[1])]['params'][int(toks[2])] = (int(toks[3]), self.N(toks[4]), self.N(toks[5]))
             return 'ok'
         if op == 'regobj':
             s = self.scheds[int(toks[1])]
@@ -695,33 +777,40 @@ class FullRunner(Runner):
         if label == 'resource_update':
             return f'rec resource_update {self.rid(sub)} {ticks(dp[0])} {ival(dp[1])} {ival(dp[2])}'
         names = self.name_map()
+        if label in ('level', 'received_part', 'produced_part', 'device_failure', 'supplied_new_part'):
+            dev = self.owner_of(sub, '_vdev', [getattr(d, 'name', None) for d in self.devs])
         if label == 'level':
-            return f'rec level {names.get(sub, "?")} {ticks(dp[0])} {ival(dp[1])}'
+            return f'rec level {dev} {ticks(dp[0])} {ival(dp[1])}'
         if label in ('received_part', 'produced_part'):
-            return f'rec {label} {names.get(sub, "?")} {ticks(dp[0])} {self.pid.get(dp[1], "?")} {ival(dp[2])} {ival(dp[3])}'
+            return f'rec {label} {dev} {ticks(dp[0])} {self.pid.get(dp[1], "?")} {ival(dp[2])} {ival(dp[3])}'
         if label == 'device_failure':
-            return f'rec device_failure {names.get(sub, "?")} {ticks(dp[0])} {self.pid.get(dp[1], "?") if dp[1] is not None else "-"}'
+            return f'rec device_failure {dev} {ticks(dp[0])} {self.pid.get(dp[1], "?") if dp[1] is not None else "-"}'
         if label == 'supplied_new_part':
-            return f'rec supplied_new_part {names.get(sub, "?")} {ticks(dp[0])} {self.pid.get(dp[1], "?")}'
+            return f'rec supplied_new_part {dev} {ticks(dp[0])} {self.pid.get(dp[1], "?")}'
         if label in ('enter_queue', 'start_work_order', 'finish_work_order'):
-            tn = self.tname_map()
-            return f'rec {label} {names.get(sub, "?")} {ticks(dp[0])} {tn.get(dp[1], "?")} {ival(dp[2])} {ival(dp[3])}'
+            tgt = self.owner_of(dp[1], '_vtgt', [getattr(t['obj'], 'name', 'N/A') for t in self.targets])
+            return f'rec {label} {names.get(sub, "?")} {ticks(dp[0])} {tgt} {ival(dp[2])} {ival(dp[3])}'
         if label == 'schedule_update':
             return f'rec schedule_update {names.get(sub, "?")} {ticks(dp[0])} {sstate(dp[1])}'
         return f'rec {label} ? {dp}'
 
+    @staticmethod
+    def owner_of(name, attr, all_names):
+        """index of the object a name in a record belongs to: read from the name object itself (see Name); a library
+        that hands on a copy of the text is understood as long as the text is unambiguous"""
+        k = getattr(name, attr, None)
+        if k is not None:
+            return k
+        hits = [i for i, n in enumerate(all_names) if n == name]
+        return hits[0] if len(hits) == 1 else '?'
+
     def name_map(self):
         m = {}
-        for i, d in enumerate(self.devs):
-            m[d.name] = i
         for i, d in enumerate(self.maints):
             m[d.name] = i
         for i, d in enumerate(self.scheds):
             m[d.name] = i
         return m
-
-    def tname_map(self):
-        return {getattr(t['obj'], 'name', 'N/A'): i for i, t in enumerate(self.targets)}
 
     def kind_of(self, d):
         for cls, k in ((Source, 'source'), (Sink, 'sink'), (Buffer, 'buffer'), (PartBatcher, 'batcher'),
@@ -820,7 +909,7 @@ class FullRunner(Runner):
         self.records = []
 
     def dump_ext(self):
-        rm = self.system.resource_manager
+        rm = self.rm
         o = self.out
         if self.valcheck:
             self.dump_ext_values()
@@ -831,7 +920,7 @@ class FullRunner(Runner):
             items = []
             for req, cb in rm._waiting_requests:
                 s = getattr(cb, '__self__', None)
-                tag = f's{cb.k}' if hasattr(cb, 'k') else (f'p{self.didx(s)}' if s is not None else '?')
+                tag = f's{s.k}' if isinstance(s, Requester) else (f'p{self.didx(s)}' if s is not None else '?')
                 items.append(self.req_str(req) + '@' + tag)
             o.append('wq ' + ','.join(items))
         else:
